@@ -150,7 +150,7 @@ def explore(module, func, params, bound, workers=None, seed=0, split_levels=1, p
     pool = make_pool(workers)
   rng = random.Random(seed)
   total = Agg()
-  t0 = time.time()
+  t0 = time.perf_counter()
   try:
     level = [([], None, 0)]
     depth = 0
@@ -163,18 +163,18 @@ def explore(module, func, params, bound, workers=None, seed=0, split_levels=1, p
       for agg, kids in pool.imap_unordered(_run_task, tasks, chunksize=1):
         total.merge(agg)
         nxt.extend(kids)
-        if deadline and time.time() > deadline:
+        if deadline and time.perf_counter() > deadline:
           total.capped = True
       level = nxt
       depth += 1
-      if deadline and time.time() > deadline and level:
+      if deadline and time.perf_counter() > deadline and level:
         total.capped = True
         break
   finally:
     if own:
       pool.close()
       pool.join()
-  total.wall = time.time() - t0
+  total.wall = time.perf_counter() - t0
   return total
 
 
